@@ -29,11 +29,11 @@ CHECKS = {
  "C02": ("E2", "model_checking",
    "explicit-state model checking (BFS; invariant checked after every single payload and every prefix of every order)",
    "Same exploration as C01; after each single update applied on its own to the fetched state, and after every prefix of every permutation of the update sequence, every touched policy must have only family-restricted accepting terms with explicit route-filters inside the evaluated set and end in reject, and the payload may address nothing outside configuration/policy-options/policy-statement.",
-   "Same trusted base as C01; a second sweep starts from 19 installed states the agent did not produce (foreign route-filter match types, foreign accept-all terms, terms that lost family / filters / action, no trailing reject, ...) and checks every update sent from them the same way; an end-to-end slice runs the real agent binary body against the fake Junos server for an emptied family and an emptied policy.", "DESIGN.md §2 E2"),
+   "Same trusted base as C01; a second sweep starts from 19 installed states the agent did not produce (foreign route-filter match types, foreign accept-all terms, terms that lost family / filters / action, no trailing reject, ...) and checks every update sent from them the same way; end to end the state after every single load is judged too (a policy of up to 2100 ranges replaced completely); an end-to-end slice runs the real agent binary body against the fake Junos server for an emptied family and an emptied policy.", "DESIGN.md §2 E2"),
  "C03": ("E2", "fault_enumeration",
    "exhaustive enumeration of failed-evaluation subsets over the BFS state space + malformed-annotation sweep",
    "In every reachable configuration every subset of candidates is marked 'evaluation failed': no payload may name them and their installed form must be unchanged; deletes may only name installed, unmanaged policies. Malformed annotations are driven through the real candidate reader and the real plan.",
-   "Plan level (E2) plus the evaluation stage against a fake IRRd (E5): unknown as-set and D/E/F answers to the as-set query must make the evaluation fail, never yield a smaller set; an end-to-end slice resets the IRRd connection mid-run with literal-prefix policies installed (nothing may be deleted, in every evaluation order); the foreign-installed-states sweep of C02 applies its C03 clauses too; same trusted base as C01.", "DESIGN.md §2 E2"),
+   "Plan level (E2) plus the evaluation stage against a fake IRRd (E5): unknown as-set and D/E/F answers to the as-set query must make the evaluation fail, never yield a smaller set (also error answers to route queries, unknown route-sets / filter-sets, constructs that cannot be evaluated, reference loops); an end-to-end slice resets the IRRd connection mid-run with literal-prefix policies installed (nothing may be deleted, in every evaluation order); the foreign-installed-states sweep of C02 applies its C03 clauses too; same trusted base as C01.", "DESIGN.md §2 E2"),
  "C16": ("E2", "exploration",
    "bounded-exhaustive enumeration of generated running configurations against an independent selection rule",
    "Product of comment kinds x active attribute forms x extra/duplicate attributes x all attribute orders x statement bodies x names (incl. XML metacharacters), every single statement and every ordered pair of a representative subset, through the agent's real candidate reader; annotations folded over several lines; an end-to-end slice in which the fake Junos applies the agent's own get-config subtree filter (RFC 6241 s.6.2).",
@@ -44,7 +44,7 @@ CHECKS = {
    "Documents are drawn from the stated grammar, not all XML; quick-xml is the parser under test as used by the library.", "DESIGN.md §2 E3 C08"),
  "C09": ("E3", "exploration",
    "exhaustive capability-set x request-recipe matrix against an RFC 6241 table",
-   "395 request recipes (products of builder calls over datastores, filter kinds, URL schemes incl. prefix-related ones, option values, optional parameters, all Junos operations) against every relevant capability subset (quick) or all 2^11 x 8 capability sets (thorough), each on a freshly established real session; cells the RFC decides must be sent iff permitted.",
+   "406 request recipes (products of builder calls, including calls that ask for nothing and builders finished without a required call over datastores, filter kinds, URL schemes incl. prefix-related ones, option values, optional parameters, all Junos operations) against every relevant capability subset (quick) or all 2^11 x 8 capability sets (thorough), each on a freshly established real session; cells the RFC decides must be sent iff permitted; whatever reaches the wire is judged a second time from its XML alone; the same inside hellos that list hundreds of module capabilities first.",
    "The oracle table is a transcription of RFC 6241 sections 7-8; open cells are listed in the evidence and not judged.", "DESIGN.md §2 E3 C09"),
  "C12": ("E3", "exploration",
    "bounded-exhaustive hello grammar through real session establishment, both exchange orders",
